@@ -49,8 +49,9 @@ def g_coefficients(tier, seed):
     gc, cv, ga = _mods()
     n = z3.Real('n')
     dom = [n >= ratval(Fraction(1, 802)), n <= ratval(Fraction(1, 298))]     # 1/f in [150, 400] -> n in [1/799, 1/299]
-    e = _N()
+    e = gc.Ellipsoid(6378137, Fraction('298.257222101'))      # a real Ellipsoid object whose third flattening is the symbol n
     e.n = SymReal(n)
+    e.n2 = e.n ** 2
     code = cv.alpha_coeff(e)
     ref = RT.alpha(SymReal(n))
     out = []
@@ -71,10 +72,24 @@ def g_coefficients(tier, seed):
     # rectifying radius on a symbolic ellipsoid
     def run():
         a, invf, ell = TC.sym_ell(gc)
-        return a, invf, ell, cv.rect_radius(ell)
+        A = cv.rect_radius(ell)
+        # a second ellipsoid with the same flattening and another semi-major axis, used afterwards in the same process
+        a2 = fresh_real('a2', TC.A_LO, TC.A_HI)
+        ell2 = gc.Ellipsoid(a2, invf)
+        return a, invf, ell, A, a2, ell2, cv.rect_radius(ell2)
     paths, _ = explore(run)
     for p in paths:
-        a, invf, ell, A = p.value
+        if p.kind != 'return':
+            out.append(ob.ground_violation('O1', 'rect_radius on two ellipsoids in sequence raises %r' % (p.value,), PID, 'O1:rect', 'oracles.c01:coeffs',
+                                           {'env': {}}) if p.kind == 'raise' else ob.res('O1', 'rectifying radius', 'inconclusive', [], 'cut: %s' % p.value))
+            continue
+        a, invf, ell, A, a2, ell2, A2 = p.value
+        (r2, _x), extra2 = TC.with_facts(lambda: (RE.RefEll(a2, invf), None))
+        dom2 = dict(TC.DOM)
+        dom2['a2'] = TC.DOM['a']
+        out.append(ob.decide_close('O1', 'rectifying radius of a second ellipsoid with the same flattening, computed afterwards, is its own', p, A2,
+                                   RT.rect_radius(a2, r2.n), Fraction(1, 10 ** 5), pid=PID, key='O1:rect', oracle='oracles.c01:coeffs',
+                                   domain=dom2, make_args=lambda env: {'env': env}, extra_conds=extra2, timeout_s=60))
         (r, refA), extra = TC.with_facts(lambda: (RE.RefEll(a, invf), None))
         refA = RT.rect_radius(a, r.n)
         out.append(ob.decide_close('O1', 'rectifying radius A(a, 1/f) within 0.01 mm of the published series', p, A, refA,
